@@ -770,6 +770,8 @@ class Lib:
                 return t
         if shape in ("ArrIntU", "ArrIntInt"):
             return a.arr if isinstance(a, VList) else a.t
+        if shape == "int" and isinstance(a, VRef):
+            return a.t
         return eng.coerce(st, a, shape)
 
     def spec_wrap(self, st, shape, t):
@@ -795,6 +797,20 @@ class Lib:
             return v
         raise self.E.Unsupported("seq() of this value")
 
+    def sp_ite_stream(self, st, node):
+        eng = self.eng
+        c = eng.truthy(st, eng.eval(st, node.args[0]))
+        a = eng.eval(st, node.args[1])
+        b = eng.eval(st, node.args[2])
+        return VStream(z3.If(c, a.t, b.t))
+
+    def sp_ite_u(self, st, node):
+        eng = self.eng
+        c = eng.truthy(st, eng.eval(st, node.args[0]))
+        a = eng.coerce(st, eng.eval(st, node.args[1]), "U")
+        b = eng.coerce(st, eng.eval(st, node.args[2]), "U")
+        return VU(z3.If(c, a, b))
+
     def sp_ite_seq(self, st, node):
         eng = self.eng
         c = eng.truthy(st, eng.eval(st, node.args[0]))
@@ -807,6 +823,10 @@ class Lib:
         if isinstance(v, VOpt):
             return v.val
         return v
+
+    def sp_stream(self, st, node):
+        v = self.eng.eval(st, node.args[0])
+        return VStream(self.stream_model().stream_of(st, v))
 
     def sp_EMPTY(self, st, node):
         return VSpecTerm(self.stream_model().EMPTY)
@@ -878,6 +898,8 @@ class Lib:
         E = self.E
         eng = self.eng
         a = eng.coerce(st, arg, "U")
+        if st.spec:
+            return VU(APP(fv.t, a))
         if st.branch(APPFAILS(fv.t, a), f"app-fails@{line}"):
             st.ghost["__failed"] = True
             raise E.RaiseEx("Foreign", line, "callable raised")
@@ -1140,6 +1162,9 @@ class Lib:
                                      eng.spec_bool(st, txt)))
             for txt in summ.get("always", []):
                 st.assume(eng.spec_bool(st, txt))
+            if "fails_only_if" in summ:
+                st.assume(z3.Implies(sm.FAILS(S), eng.spec_bool(
+                    st, summ["fails_only_if"])))
             out = VStream(S)
             out.elem = summ.get("elem", "U")
             return out
@@ -1254,6 +1279,14 @@ class Lib:
     # ------------------------------------------------------------------
     # builtins (code)
     # ------------------------------------------------------------------
+    def b_super(self, st, node):
+        eng = self.eng
+        cur = eng.cur
+        base = eng.reg.bases.get(cur.cls)
+        if base is None or "self" not in st.locals:
+            raise self.E.Unsupported("super() here")
+        return VRef(st.locals["self"].t, base)
+
     def b_len(self, st, node):
         eng = self.eng
         v = eng.eval(st, node.args[0])
